@@ -20,7 +20,7 @@ from vlib.ref import trxmodel, trxd
 F1, F2, F3, F4 = 935000, 890000, 936000, 937000
 F = 1000            # frame of the racing tick
 OPS = ["arr0", "arr1", "off", "on"]
-QUEUES = {"empty": [], "f": [0], "f,f+1": [0, 1], "f-1,f": [-1, 0]}
+QUEUES = {"empty": [], "f": [0], "f,f+1": [0, 1], "f-1,f": [-1, 0], "f,f+1,f+2": [0, 1, 2]}
 
 
 def bits_for(tag):
@@ -45,6 +45,12 @@ def op_payload(op, seq):
         return ("ctrl", ("CMD SETFH 0 0 %d %d %d %d\0" % (F3, F3, F4, F4)).encode(), 1)
     if op == "mstune":
         return ("ctrl", ("CMD RXTUNE %d\0" % F1).encode(), 1)
+    if op.startswith("msdrop"):
+        return ("ctrl", ("CMD FAKE_DROP %s\0" % op[6:].replace("_", " ")).encode(), 1)
+    if op.startswith("msmute"):
+        return ("ctrl", ("CMD RFMUTE %s\0" % op[6:]).encode(), 1)
+    if op.startswith("btsmute"):
+        return ("ctrl", ("CMD RFMUTE %s\0" % op[7:]).encode(), 0)
     raise ValueError(op)
 
 
@@ -55,7 +61,11 @@ PREFIX_MSHOP = [(0, "RXTUNE %d" % F2), (0, "TXTUNE %d" % F1), (1, "RXTUNE %d" % 
                 (1, "SETFH 0 0 %d %d %d %d" % (F3, F3, F4, F4)), (1, "POWERON"), (0, "POWERON")]
 PREFIX_MSOFF = [(0, "RXTUNE %d" % F2), (0, "TXTUNE %d" % F1), (1, "RXTUNE %d" % F1), (1, "TXTUNE %d" % F2),
                 (0, "POWERON")]
-PREFIXES = {"std": PREFIX, "mshop": PREFIX_MSHOP, "msoff": PREFIX_MSOFF}
+PREFIX_DROP1 = PREFIX + [(1, "FAKE_DROP 1")]
+PREFIX_DROP2P2 = PREFIX + [(1, "FAKE_DROP 2 2")]
+PREFIX_V1DROP1 = PREFIX[:4] + [(1, "SETFORMAT 1")] + PREFIX[4:] + [(1, "FAKE_DROP 1")]
+PREFIXES = {"std": PREFIX, "mshop": PREFIX_MSHOP, "msoff": PREFIX_MSOFF, "drop1": PREFIX_DROP1, "drop2p2": PREFIX_DROP2P2,
+            "v1drop1": PREFIX_V1DROP1}
 DRAIN = [("c", 0, b"CMD POWERON\0"), ("t", F + 1), ("t", F + 2)]
 
 
@@ -70,43 +80,56 @@ class Scenario:
 
     # -- reference: all sequential orders -----------------------------------------------
     def linearizations(self):
-        """-> list of (position of tick, [phase expectations], stale counts)"""
-        res = []
-        n = len(self.ops)
-        for pos in range(n + 1):
-            m = trxmodel.RefApp(self.defs, ind_period=0)
-            for i, c in PREFIXES[self.prefix]:
-                m.ctrl(i, ("CMD " + c + "\0").encode(), ("127.0.0.1", self.defs[i].ctrl + 100))
-            for k, d in enumerate(QUEUES[self.queue]):
-                m.data(0, trxd.enc_tx(0, 1, F + d, 1, bits_for(k)))
-            if self.start_off:
-                m.ctrl(0, b"CMD POWEROFF\0", ("127.0.0.1", 5801))
-            exps = []
-            stale = 0
-            seq = list(self.ops)
-            order = seq[:pos] + ["TICK"] + seq[pos:]
-            si = 0
-            for o in order:
-                if o == "TICK":
-                    e, st = self._mtick(m, F)
-                    exps += e
-                    stale += len(st)
+        """the candidate positions of the tick among the socket operations"""
+        return list(range(len(self.ops) + 1))
+
+    def try_order(self, pos, obs):
+        """Replays the reference model with the tick at position `pos` and matches the observation
+        phase by phase (the model's drop budget evolves with what was observed).  -> None | reason"""
+        m = trxmodel.RefApp(self.defs, ind_period=0)
+        for i, c in PREFIXES[self.prefix]:
+            m.ctrl(i, ("CMD " + c + "\0").encode(), ("127.0.0.1", self.defs[i].ctrl + 100))
+        for k, d in enumerate(QUEUES[self.queue]):
+            m.data(0, trxd.enc_tx(0, 1, F + d, 1, bits_for(k)))
+        if self.start_off:
+            m.ctrl(0, b"CMD POWEROFF\0", ("127.0.0.1", 5801))
+        ctrl_ports = {d.ctrl + 100 for d in self.defs}
+        out0, stale0 = obs[0]
+        replies = []
+        seq = list(self.ops)
+        order = seq[:pos] + ["TICK"] + seq[pos:]
+        si = 0
+        for o in order:
+            if o == "TICK":
+                e, st = self._mtick(m, F)
+                if len(st) != stale0:
+                    return "stale %d vs %d" % (stale0, len(st))
+                mm = trxmodel.match(e, [x for x in out0 if x[2] not in ctrl_ports], m) if e is not None else None
+                if mm:
+                    return mm
+            else:
+                kind, pl, ti = op_payload(o, si)
+                si += 1
+                if kind == "ctrl":
+                    replies += m.ctrl(ti, pl, ("127.0.0.1", self.defs[ti].ctrl + 100))
                 else:
-                    kind, pl, ti = op_payload(o, si)
-                    si += 1
-                    if kind == "ctrl":
-                        exps += m.ctrl(ti, pl, ("127.0.0.1", self.defs[ti].ctrl + 100))
-                    else:
-                        m.data(ti, pl)
-            phases = [(exps, stale)]
-            for st_ in DRAIN:
-                if st_[0] == "c":
-                    phases.append((m.ctrl(st_[1], st_[2], ("127.0.0.1", self.defs[st_[1]].ctrl + 100)), 0))
-                else:
-                    e, st = self._mtick(m, st_[1])
-                    phases.append((e, len(st)))
-            res.append((pos, phases, sum(len(t.queue) for t in m.trx)))
-        return res
+                    m.data(ti, pl)
+        mm = trxmodel.match(replies, [x for x in out0 if x[2] in ctrl_ports], m)
+        if mm:
+            return mm
+        for st_, (out, ost) in zip(DRAIN, obs[1:]):
+            if st_[0] == "c":
+                e = m.ctrl(st_[1], st_[2], ("127.0.0.1", self.defs[st_[1]].ctrl + 100))
+                nst = 0
+            else:
+                e, st = self._mtick(m, st_[1])
+                nst = len(st)
+            if nst != ost:
+                return "drain: stale %d vs %d" % (ost, nst)
+            mm = trxmodel.match(e, out, m) if e is not None else None
+            if mm:
+                return "drain: " + mm
+        return None
 
     @staticmethod
     def _mtick(m, fn):
@@ -187,20 +210,11 @@ class Scenario:
         if errors:
             return "exception", "exception left a thread: %r" % (errors,)
         why = []
-        for pos, phases, left in lins:
-            ok = True
-            for (exps, nst), (out, ost) in zip(phases, obs):
-                if nst != ost:
-                    ok = False
-                    why.append("tick@%d: stale %d vs %d" % (pos, ost, nst))
-                    break
-                mm = trxmodel.match(exps, out)
-                if mm:
-                    ok = False
-                    why.append("tick@%d: %s" % (pos, mm))
-                    break
-            if ok:
+        for pos in lins:
+            r = self.try_order(pos, obs)
+            if r is None:
                 return None, pos
+            why.append("tick@%d: %s" % (pos, r))
         return "not-linearizable", "observation matches no sequential order of the operations: " + " || ".join(why)[:1500]
 
 
@@ -218,6 +232,19 @@ def scenarios(tier):
         for a, b in itertools.product(OPS, OPS):
             others.append(Scenario([a, b], q, start_off=(a == "on")))
     return basic, others
+
+
+def drop_scenarios(tier):
+    """C18 under schedules: a FAKE_DROP / RFMUTE command to the recipient (or RFMUTE to the sender) racing the
+    tick that forwards a burst to it; the following two ticks forward two more bursts and show the budget."""
+    out = []
+    q = "f,f+1,f+2"
+    for prefix in ("drop1", "drop2p2", "v1drop1", "std"):
+        for op in ("msdrop2", "msdrop0", "msdrop1_2", "msmute1", "btsmute1"):
+            out.append(Scenario([op], q, prefix=prefix))
+    out.append(Scenario(["msmute1", "msmute0"], q, prefix="drop1"))
+    out.append(Scenario(["msdrop2", "msdrop0"], q, prefix="std"))
+    return out
 
 
 def routing_scenarios(tier):
@@ -298,6 +325,9 @@ def run(ctx, family="queue"):
     if family == "queue":
         basic, others = scenarios(ctx.tier)
         b_basic, b_other = (2, 1) if ctx.quick else (3, 2)
+    elif family == "drop":
+        basic, others = [], drop_scenarios(ctx.tier)
+        b_basic, b_other = (1, 1) if ctx.quick else (2, 2)
     else:
         basic, others = [], routing_scenarios(ctx.tier)
         b_basic, b_other = (1, 1) if ctx.quick else (2, 2)
